@@ -67,6 +67,7 @@ class atom(boolean.AndRestriction):
         "cpvstr",
         "op",
         "blocks",
+        "blocks_strongly",
         "negate_vers",
         "use",
         "slot",
@@ -300,7 +301,20 @@ class atom(boolean.AndRestriction):
         elif self.version is not None:
             raise errors.MalformedAtom(orig_atom, "versioned atom requires an operator")
 
-        self._hash = hash(orig_atom)
+        # hash what __eq__ compares (not the original text: USE deps are sorted)
+        self._hash = hash(
+            (
+                self.cpvstr,
+                self.op,
+                self.blocks,
+                self.blocks_strongly,
+                self.use,
+                self.slot,
+                self.subslot,
+                self.slot_operator,
+                self.repo_id,
+            )
+        )
         self.negate_vers = negate_vers
 
     __getattr__ = klass.GetAttrProxy("_cpv")
@@ -475,7 +489,21 @@ class atom(boolean.AndRestriction):
         if c:
             return c
 
-        return cmp(self.repo_id, other.repo_id)
+        c = cmp(self.repo_id, other.repo_id)
+        if c:
+            return c
+
+        c = cmp(self.subslot, other.subslot)
+        if c:
+            return c
+
+        c = cmp(self.slot_operator, other.slot_operator)
+        if c:
+            return c
+
+        # equal versions may still be spelled differently (1.0 vs 1.00), which
+        # __eq__ distinguishes; keep the ordering total.
+        return cmp(self.cpvstr, other.cpvstr)
 
     no_usedeps = klass.alias_attr("get_atom_without_use_deps")
 
